@@ -215,6 +215,56 @@ func registerSync() {
 		intrinsics["sync/atomic.And"+t] = atomicOp("and")
 		intrinsics["sync/atomic.Or"+t] = atomicOp("or")
 	}
+	// sync/atomic.Value: the interface slot itself is the atomic cell (the
+	// real code goes through unsafe efaceWords)
+	valueOp := func(kind string) intrinsic {
+		return func(m *Machine, c *frame, fn *ssa.Function, a []value) value {
+			s := m.syncPoint(c, "atomic.Value "+kind)
+			vp := a[0].(Ptr)
+			st := fn.Signature.Recv().Type().(*types.Pointer).Elem().Underlying().(*types.Struct)
+			p := m.fieldAddr(vp, 0, st)
+			sy := m.syncOf(p)
+			old := copyVal(*p.p)
+			set := func(v value) {
+				if v.(Iface).t == nil {
+					m.goPanic("sync/atomic: store of nil value into Value")
+				}
+				if o := old.(Iface); o.t != nil && !types.Identical(o.t, v.(Iface).t) {
+					m.goPanic("sync/atomic: store of inconsistently typed value into Value")
+				}
+				m.noteWrite(p.obj, p.p)
+				*p.p = copyVal(v)
+			}
+			var ret value
+			switch kind {
+			case "load":
+				ret = old
+			case "store":
+				set(a[1])
+			case "swap":
+				set(a[1])
+				ret = old
+			case "cas":
+				eq := m.eqValue(types.NewInterfaceType(nil, nil), old, a[1])
+				if m.branch(eq, "Value.CompareAndSwap") {
+					set(a[2])
+					ret = m.tt.True
+				} else {
+					ret = m.tt.False
+				}
+			}
+			if s != nil {
+				s.acquire(&sy.vc)
+				s.release(&sy.vc)
+			}
+			return ret
+		}
+	}
+	intrinsics["(*sync/atomic.Value).Load"] = valueOp("load")
+	intrinsics["(*sync/atomic.Value).Store"] = valueOp("store")
+	intrinsics["(*sync/atomic.Value).Swap"] = valueOp("swap")
+	intrinsics["(*sync/atomic.Value).CompareAndSwap"] = valueOp("cas")
+
 	// internal/runtime/atomic used by some std code
 	for _, t := range []string{"", "64", "Uintptr", "Uint8"} {
 		intrinsics["internal/runtime/atomic.Load"+t] = atomicOp("load")
